@@ -166,6 +166,8 @@ class kMinPathErrorCycles(walkmodel.AbstractWalkModelDiGraph):
 
         self.G = stdigraph.stDiGraph(self.G_internal, additional_starts=additional_starts_internal, additional_ends=additional_ends_internal)
         self.subset_constraints = subset_constraints_internal
+        if self.subset_constraints is not None:
+            self._check_valid_subset_constraints()
 
         if elements_to_ignore_percentile is not None:
             if elements_to_ignore_percentile < 0 or elements_to_ignore_percentile > 100:
